@@ -265,7 +265,10 @@ def printTFlist(matrix, title, nd, print_names = True, tm_names=True):
         for i in range(len(matrix)):
             t_nd = nd
             if (abs(matrix[i][j]) >= 9999):
-                nm = len(str(abs(round(matrix[i][j]))))
+                if math.isinf(matrix[i][j]):
+                    nm = 3
+                else:
+                    nm = len(str(abs(round(matrix[i][j]))))
                 while t_nd > 0 and nm > 6:
                     t_nd = t_nd - 1
                     nm = nm - 1
